@@ -83,16 +83,14 @@ Theorem C18_no_repetition_bounded : forall nn nt k views e,
 Proof. exact no_repetition_bounded. Qed.
 Print Assumptions C18_no_repetition_bounded.
 
-(* Size vectors for ALL n, k: k entries summing to n.  Partial: the full statement
-     forall n k, 1 <= k -> gen_partition_sizes n k 1 = Ok szs ->
-       (In v szs <-> length v = k /\ sum v = n /\ non-increasing v /\ 1 <= hd v) /\ NoDup szs
-   (completeness, order, distinctness of the enumeration for all n, k) is not proved; within the
-   bound it is subsumed by C18_partitions_wf_bounded, beyond it the harness compares
-   genPartitionSizes with the model for n <= 10 (14), k <= 5 (6) and evaluates those conditions. *)
-Theorem C18_sizes_sum_partial : forall n k mn szs v,
-  gen_partition_sizes n k mn = Ok szs -> In v szs -> length v = k /\ sum v = n.
-Proof. exact sizes_sum_partial. Qed.
-Print Assumptions C18_sizes_sum_partial.
+(* Size vectors for ALL n >= 1 and k (genPartitionSizes(n, k, 1), the only minimum NewGenerator
+   uses): the result is exactly the set of non-increasing splits of n into k parts (trailing zeros
+   = unused partitions), each once. *)
+Theorem C18_sizes_exact : forall n k szs,
+  1 <= n -> gen_partition_sizes n k 1 = Ok szs ->
+  NoDup szs /\ forall v, In v szs <-> length v = k /\ sum v = n /\ nonincr v.
+Proof. exact sizes_exact. Qed.
+Print Assumptions C18_sizes_exact.
 
 (* The verdict is 'unsafe' exactly when two compared logs differ at a position where both are
    defined ... *)
@@ -132,6 +130,11 @@ Proof. split; [vm_compute; reflexivity | apply perm_trans with [0; 2; 1]; [apply
 
 Example C18_ex_options : exists lp, option_list 4 1 2 = Ok lp /\ length lp = 18.
 Proof. eexists. split; [vm_compute; reflexivity | reflexivity]. Qed.
+
+Example C18_ex_sizes :
+  gen_partition_sizes 6 4 1 = Ok [[6;0;0;0]; [5;1;0;0]; [4;2;0;0]; [4;1;1;0]; [3;3;0;0]; [3;2;1;0];
+                                  [3;1;1;1]; [2;2;2;0]; [2;2;1;1]].
+Proof. vm_compute. reflexivity. Qed.
 
 Example C18_ex_verdict :
   check_commits [[1; 2; 3]; [1; 2]; [1; 4]]%N = (false, 1) /\
